@@ -53,7 +53,17 @@ func activationListener() net.Listener {
 
 	syscall.CloseOnExec(fd)
 
-	file := os.NewFile(uintptr(fd), "varlink")
+	// net.FileListener works on a duplicate of the descriptor. Hand it a
+	// wrapper around a duplicate of our own and close that wrapper: an
+	// *os.File wrapping the inherited descriptor itself, once dropped,
+	// would close it when the garbage collector finalizes the file, and a
+	// later Listen in the same process would no longer find its socket.
+	nfd, err := syscall.Dup(fd)
+	if err != nil {
+		return nil
+	}
+	file := os.NewFile(uintptr(nfd), "varlink")
+	defer file.Close()
 	listener, err := net.FileListener(file)
 	if err != nil {
 		return nil
